@@ -1,14 +1,16 @@
 package main
 
 // Constants and literal tables extracted into coq/Gen/Consts.v.
-var constItems = []item{
-	{"Uncompressed", "dvid", "Uncompressed"},
-	{"Snappy", "dvid", "Snappy"},
-	{"Gzip", "dvid", "Gzip"},
-	{"LZ4", "dvid", "LZ4"},
-	{"JPEG", "dvid", "JPEG"},
-	{"NoChecksum", "dvid", "NoChecksum"},
-	{"CRC32", "dvid", "CRC32"},
+// Each property adds its own items_<id>.go with an init() that appends here.
+var constItems []item
+var tableItems []item
+
+func regConsts(pkg string, names ...string) {
+	for _, n := range names {
+		constItems = append(constItems, item{coq: n, pkg: pkg, name: n})
+	}
 }
 
-var tableItems = []item{}
+// regConstAs registers a constant under a different Coq name (to avoid clashes between packages).
+func regConstAs(coq, pkg, name string) { constItems = append(constItems, item{coq: coq, pkg: pkg, name: name}) }
+func regTable(coq, pkg, name string)   { tableItems = append(tableItems, item{coq: coq, pkg: pkg, name: name}) }
